@@ -1584,8 +1584,9 @@ func main() {
 	r.Rule = "breadth-first closure of the state graph of CLIManager on a real plugin root: state = file tree (paths, modes, bytes) under the root, deduplicated by a canonical hash; from every reachable state every operation {Install(version x overwrite x source shape), Uninstall(foo)} is executed by the real code in a fresh directory (shortest history replayed first) and judged by a reference installer that sees only the generator's description of the source and the model of the state; non-trivial = distinct (state, operation) pairs where a plugin directory exists and the source is usable with valid metadata (the version rule or overwrite decides), and uninstalls of an existing directory"
 	r.Assumptions = []string{
 		"plugins are POSIX shell scripts whose bytes embed name and version (an installed copy is self-describing); /bin/sh exists",
-		"what is enforced is the statement only: refusal is demanded for invalid/misnamed metadata and for an existing versioned plugin without overwrite unless the new version is strictly higher (whatever the source); success is demanded only for the two plain sources (the executable, the directory holding only it) with a valid version and no existing plugin / overwrite / strictly higher version; every other usable-labelled shape is tied to the plain shape of its family by the differential clause; sources labelled unusable, a non-semantic version with nothing to compare against, and a malfunctioning existing plugin without overwrite may go either way (recorded); whatever Install reports, the stated consequences of a refusal / a success are checked",
+		"what is enforced is the statement only: refusal is demanded for invalid/misnamed metadata and for an existing versioned plugin without overwrite unless the new version is strictly higher (whatever the source); success is demanded only for the two plain sources (the executable, the directory holding only it) with a valid version and no existing plugin / overwrite / strictly higher version; every other usable-labelled shape is tied to the plain shape of its family by the differential clause; sources labelled unusable, a non-semantic version with nothing to compare against, may go either way (recorded); an existing plugin that does not answer (regular file notation-foo present: silent exit 1, stderr text, stderr JSON error, garbage answer, other name, not executable, empty file) has no version, so without overwrite it must not be replaced; whatever Install reports, the stated consequences of a refusal / a success are checked",
 		"recorded, not judged (outcome classes recorded:*): entries under the root outside <root>/foo, the metadata values returned by Install, acceptance of a source labelled unusable, Uninstall on a directory that holds no working plugin; error texts and error types are never compared",
+		"all operations of one history use ONE source location: files that stay are rewritten in place (same inode), the tree before the judged operation is taken before its source is prepared - an installed plugin must not depend on what later happens to its source",
 		"semantic-version precedence is the row order of the hand-written table `precedence` (1.0.0 and 1.0.0+b1 share a row)",
 		"file modes of installed extra files are part of the state hash but not of the 'exactly the source files' oracle (names and bytes; the executable must be executable)",
 		"each case runs in a single-case worker process so that no foreign child holds a descriptor of a freshly written script (ETXTBSY)",
